@@ -513,3 +513,19 @@ def run_under_pty(argv, env, cwd, timeout=600, rows=50, cols=200):
     p, st = os.waitpid(pid, 0)
     os.close(fd)
     return os.waitstatus_to_exitcode(st), out
+
+
+# ------------------------------------------------------- translator (tie #1) ----
+
+def run_translator(run, name, args=()):
+    """Build /verif/translator/<name> inside /repo's module (overlay) and run it on the working tree; returns (ok, stdout, log)."""
+    src = os.path.join(VERIF, "translator", name)
+    repl = {os.path.join(REPO, "zz_verif", name, f): os.path.join(src, f) for f in sorted(os.listdir(src)) if f.endswith(".go")}
+    ov = os.path.join(run.rundir, "ov_%s.json" % name)
+    json.dump({"Replace": repl}, open(ov, "w"))
+    binp = os.path.join(run.rundir, name)
+    rc, o, e = sh(["go", "build", "-overlay", ov, "-o", binp, "./zz_verif/" + name], cwd=REPO, env=GOENV, timeout=600)
+    if rc:
+        return False, "", (o + e).decode(errors="replace")
+    rc, o, e = sh([binp, REPO] + list(args), cwd=REPO, env=GOENV, timeout=600)
+    return rc == 0, o.decode(errors="replace"), e.decode(errors="replace")
